@@ -45,6 +45,8 @@ impl<T: RefCnt> HybridProtection<T> {
     fn attempt(node: &LocalNode, storage: &AtomicPtr<T::Base>) -> Option<Self> {
         // Relaxed is good enough here, see the Acquire below
         let ptr = storage.load(Relaxed);
+        #[cfg(arc_swap_verif)]
+        verif_rt::event(verif_rt::probes::FAST_FIRST_READ, ptr as usize);
         // Try to get a debt slot. If not possible, fail.
         let debt = node.new_fast(ptr as usize)?;
 
@@ -67,7 +69,7 @@ impl<T: RefCnt> HybridProtection<T> {
             // It changed in the meantime, but the debt for the previous pointer was already paid
             // for by someone else, so we are fine using it.
             #[cfg(arc_swap_verif)]
-            verif_rt::probe(verif_rt::probes::FAST_CHANGED_PAID, false);
+            verif_rt::event(verif_rt::probes::FAST_CHANGED_PAID, ptr as usize);
             Some(unsafe { Self::new(ptr, None) })
         }
     }
